@@ -3,7 +3,7 @@
 tier=${1:-quick}; seed=${2:-1}
 for i in 01 02 03 04 05 06 07 08 09 10 11 12 13 14 15 16 17 18 19 20; do
   t0=$(date +%s)
-  VERIF_SEED=$seed /verif/check C$i --tier $tier > /tmp/all_C$i.out 2>&1
+  VERIF_SEED=$seed "$(dirname "$0")/../check" C$i --tier $tier > /tmp/all_C$i.out 2>&1
   st=$?
   echo "C$i exit=$st $(( $(date +%s) - t0 ))s $(grep -c VIOLATION /tmp/all_C$i.out) viol $(grep -m1 'INFRA' /tmp/all_C$i.out | cut -c1-150)"
 done
